@@ -486,6 +486,11 @@ def run_zmqframes(spec, col: Collector):
                 continue
             rng = case_rng(seed, shard, i)
             m = gen_msg(msg, core, rng, value_len=rng.choice([0, 1, 1000, 1 << 20, 4 << 20]))
+            if i in (3, 4):
+                # two very large dataset payloads per run: powers of two and their multiples are where any chunking of the value would break
+                big = (32 << 20) if i == 3 else rng.choice([16 << 20, (16 << 20) + 1, 48 << 20, 64 << 20])
+                m = msg.DatasetTransmitPayload(msg.DatasetTransmitPayloadHeader(ack_addr, 7, core.DatasetId("big", "0"), "cloudpickle.loads"), bytes(bytearray(rng.randbytes(1 << 16)) * (big >> 16)) + b"x" * (big & 0xFFFF))
+                col.count("zmq_very_large_payloads")
             if isinstance(m, (msg.Syn, msg.Ack)):
                 continue
             kind = type(m).__name__
@@ -499,7 +504,8 @@ def run_zmqframes(spec, col: Collector):
             got = lst.recv_messages(5000)
             col.count("zmq_frame_roundtrips")
             if got != [m]:
-                col.violation(f"zmq-frames-differ:{kind}", f"received {got!r:.300} for {m!r:.300}", None, i)
+                col.violation(f"zmq-frames-differ:{kind}", f"received {[(type(g).__name__, len(getattr(g, 'value', b''))) for g in got]} for a {kind} with a value of {len(getattr(m, 'value', b''))} bytes"
+                              if len(getattr(m, "value", b"")) > 10000 else f"received {got!r:.300} for {m!r:.300}", None, i)
             a = ack_lst.recv_messages(5000)
             if a != [msg.Ack(expect_ack)]:
                 col.violation(f"zmq-ack-differs:{kind}", f"acks {a!r}", None, i)
